@@ -100,7 +100,7 @@ def elem_term(it, e, man_base):
     raise ValueError("unknown class " + c)
 
 
-def net_term(it, d, man_base):
+def net_term(it, d, man_base, elems_name=None, elems_only=False):
     """Gallina term of type net for one exported network."""
     # intern element uids first, in the order of Network.elements
     for e in d["elems"]:
@@ -111,7 +111,9 @@ def net_term(it, d, man_base):
                   f"{_o(it, m['connectingLane'])} {_o(it, m['intersection'])}")
     n = d["net"]
     tol = int.from_bytes(hashlib.blake2b(repr(n["tolerance"]).encode(), digest_size=6).digest(), "big")
-    parts = ["[" + ";\n  ".join(es) + "]"]
+    parts = ["[" + ";\n  ".join(es) + "]" if elems_name is None else elems_name]
+    if elems_only:
+        return "[" + ";\n  ".join(es) + "]"
     parts.append(_l(it, n["elements"]))
     for k in ("roads", "connectingRoads", "allRoads", "laneGroups", "lanes", "intersections", "crossings", "sidewalks",
               "shoulders", "roadSections", "laneSections"):
@@ -121,7 +123,7 @@ def net_term(it, d, man_base):
     return "(mkNet\n  " + "\n  ".join(parts) + ")"
 
 
-def map_file(modname, parsed, cached):
+def map_file(modname, parsed, cached, suffix=""):
     """The generated per-map file: both networks, the failing (uid, rule) lists printed for the harness,
     the equivalence goal, and the reflection theorems instantiated."""
     it = Interner()
@@ -131,34 +133,50 @@ def map_file(modname, parsed, cached):
         it.add(e["uid"])
     # maneuver ids live above every element id that can be interned later
     man_base = 10 * (len(it.ids) + len(parsed["mans"]) + 10)
-    tp = net_term(it, parsed, man_base)
-    tc = net_term(it, cached, man_base)
+    ep = net_term(it, parsed, man_base, elems_only=True)
+    ec = net_term(it, cached, man_base, elems_only=True)
+    S = suffix
+    # the element lists are emitted once when the two exports print to the same term (coqc spends its time
+    # elaborating these lists); any difference gives two terms and net_equiv decides
+    pre = f"Definition pelems{S} : list elem := {ep}.\n"
+    if ec == ep:
+        cname = f"pelems{S}"
+    else:
+        pre += f"Definition celems{S} : list elem := {ec}.\n"
+        cname = f"celems{S}"
+    tp = net_term(it, parsed, man_base, elems_name=f"pelems{S}")
+    tc = net_term(it, cached, man_base, elems_name=cname)
     if len(it.ids) + 2 >= man_base:
         raise ValueError("uid space overflow")
-    text = f"""(* generated by harness/c20.py from the network Scenic built – do not edit *)
+    text = f"""(* ---- {modname} *)
+{pre}Definition parsed{S} : net := {tp}.
+Definition cached{S} : net := {tc}.
+Definition lbad{S} := Eval vm_compute in links_bad parsed{S}.
+Definition hbad{S} := Eval vm_compute in hierarchy_bad parsed{S}.
+Definition equiv{S} := Eval vm_compute in net_equiv parsed{S} cached{S}.
+Print lbad{S}. Print hbad{S}. Print equiv{S}.
+(* reflection: every element not named in the printed lists satisfies every linkage / hierarchy rule *)
+Theorem links_instance{S} : ReciprocalExcept parsed{S} lbad{S}.
+Proof. apply links_bad_sound. vm_cast_no_check (eq_refl lbad{S}). Qed.
+Theorem hierarchy_instance{S} : HierarchyExcept parsed{S} hbad{S}.
+Proof. apply hierarchy_bad_sound. vm_cast_no_check (eq_refl hbad{S}). Qed.
+(* the cached network: equal to the parsed one when net_equiv says so (then the instances transfer) *)
+Theorem cached_instance{S} : equiv{S} = true ->
+  cached{S} = parsed{S} /\\ ReciprocalExcept cached{S} lbad{S} /\\ HierarchyExcept cached{S} hbad{S}.
+Proof.
+  intros H. assert (E : parsed{S} = cached{S}) by (apply net_equiv_eq; exact H).
+  rewrite <- E. split; [reflexivity|]. split; [exact links_instance{S} | exact hierarchy_instance{S}].
+Qed.
+"""
+    return text, it, man_base
+
+
+HEADER = """(* generated by harness/c20.py from the networks Scenic built - do not edit *)
 From Coq Require Import List Bool PArith NArith ZArith.
 From Scenic Require Import C20.Network C20.NetworkProofs.
 Import ListNotations.
 Open Scope positive_scope.
-Definition parsed : net := {tp}.
-Definition cached : net := {tc}.
-Definition lbad := Eval vm_compute in links_bad parsed.
-Definition hbad := Eval vm_compute in hierarchy_bad parsed.
-Definition equiv := Eval vm_compute in net_equiv parsed cached.
-Print lbad. Print hbad. Print equiv.
-(* reflection: every element not named in the printed lists satisfies every linkage / hierarchy rule *)
-Theorem links_instance : ReciprocalExcept parsed lbad.
-Proof. apply links_bad_sound. vm_cast_no_check (eq_refl lbad). Qed.
-Theorem hierarchy_instance : HierarchyExcept parsed hbad.
-Proof. apply hierarchy_bad_sound. vm_cast_no_check (eq_refl hbad). Qed.
-(* the cached network: equal to the parsed one when net_equiv says so (then the instances transfer) *)
-Theorem cached_instance : equiv = true -> cached = parsed /\ ReciprocalExcept cached lbad /\ HierarchyExcept cached hbad.
-Proof.
-  intros H. assert (E : parsed = cached) by (apply net_equiv_eq; exact H).
-  rewrite <- E. split; [reflexivity|]. split; [exact links_instance | exact hierarchy_instance].
-Qed.
 """
-    return text, it, man_base
 
 
 def parse_printed(out):
@@ -166,8 +184,10 @@ def parse_printed(out):
     res = {}
     for m in re.finditer(r"^(\w+) =\s*(.*?)\n\s*: ", out, flags=re.S | re.M):
         name, body = m.group(1), m.group(2)
-        if name == "equiv":
+        if name.startswith("equiv"):
             res[name] = body.strip() == "true"
+        elif name.startswith("ptbad"):
+            res[name] = [int(x) for x in re.findall(r"(\d+)%N", body)]
         else:
             res[name] = [(int(a), int(b)) for a, b in re.findall(r"\(\s*(\d+)\s*,\s*(\d+)", body)]
     return res
